@@ -61,7 +61,7 @@ def gen_case(rng, tier, i):
     for v in vals:
         r = rng.random()
         if r < 0.04:
-            ops.append(["bad", rng.choice(["nan", "str", "none", "float_for_counter"])])
+            ops.append(["bad", rng.choice(["nan", "str", "none", "float_for_counter", "numstr", "decimal"])])
         elif r < 0.055:
             ops.append(["init"])
         ops.append(["obs", v])
@@ -157,7 +157,9 @@ def run_case(case, ctx):
             kind = op[1]
             if kind == "float_for_counter" and not counter:
                 continue
-            bad = {"nan": math.nan, "str": "x", "none": None, "float_for_counter": 2.5}[kind]
+            import decimal
+            bad = {"nan": math.nan, "str": "x", "none": None, "float_for_counter": 2.5, "numstr": "2.5" if not counter else "3",
+                   "decimal": decimal.Decimal("1.5") if not counter else decimal.Decimal(2)}[kind]
             if counter and kind == "nan":
                 bad = math.nan      # a float: must be refused by the counter as a non-int
             before = fx(list(_safe_getters(ctx, t, counter, where).values()))
